@@ -105,7 +105,11 @@ func init() {
 		},
 		"vNote": func(fr *frame, args []Value) Value {
 			fr.ex.noteSeq++
-			fr.ex.note(fmt.Sprintf("%03d %s", fr.ex.noteSeq, args[0].(string)), fr.ex.valueString(args[1]))
+			key := fmt.Sprintf("%03d %s", fr.ex.noteSeq, args[0].(string))
+			fr.ex.note(key, fr.ex.valueString(args[1]))
+			if t, ok := args[1].(*smt.Term); ok && !t.IsConst() {
+				fr.ex.noteTerm(key, t)
+			}
 			return nil
 		},
 		"vAtomic": func(fr *frame, args []Value) Value {
